@@ -1,0 +1,25 @@
+//go:build verif
+
+package openapi3
+
+// Contracts for marshalling / unmarshalling (C03). Comment-only; read by /verif/engine (govc).
+
+//@ func (Parameter).MarshalYAML
+//@   modifies nothing
+//@   ensures [no-error] result.1 == nil
+//@   ensures [name] parameter.Name != "" ==> has(result.0.(map[string]any), "name") && result.0.(map[string]any)["name"] == iface(parameter.Name)
+//@   ensures [explode] parameter.Explode != nil ==> has(result.0.(map[string]any), "explode") && result.0.(map[string]any)["explode"] == iface(parameter.Explode)
+//@   ensures [content] len(parameter.Content) != 0 ==> has(result.0.(map[string]any), "content") && result.0.(map[string]any)["content"] == iface(parameter.Content)
+//@   ensures [nothing-invented] forall k string :: has(result.0.(map[string]any), k) ==> has(parameter.Extensions, k) || k == "name" || k == "in" || k == "description" || k == "style" || k == "explode" || k == "allowEmptyValue" || k == "allowReserved" || k == "deprecated" || k == "required" || k == "schema" || k == "example" || k == "examples" || k == "content"
+//@   loop 0 invariant forall k string :: has(m, k) ==> has(parameter.Extensions, k)
+//@   tag C03
+
+//@ func (*Parameter).UnmarshalJSON
+//@   requires parameter != nil
+//@   modifies *
+//@   ensures [known-keys-stripped] result == nil ==> !has(parameter.Extensions, "name") && !has(parameter.Extensions, "content") && !has(parameter.Extensions, "in")
+//@   ensures [unknown-kept] result == nil ==> forall k string :: jsonHasKey(data, k) && k != "__origin__" && k != "name" && k != "in" && k != "description" && k != "style" && k != "explode" && k != "allowEmptyValue" && k != "allowReserved" && k != "deprecated" && k != "required" && k != "schema" && k != "example" && k != "examples" && k != "content" ==> has(parameter.Extensions, k)
+//@   tag C03
+//@ func unmarshalError
+//@   modifies nothing
+//@   ensures jsonUnmarshalErr != nil ==> result != nil
